@@ -189,6 +189,8 @@ def e2e(ctx, variant, found):
         why = {}           # address -> last window tag that can leave a wrong entry for it
         closed_so_far = []
         first = {}
+        conn_back = {}     # client id -> backend that answered it (real)
+        displaced = {}     # client id -> its backend's address was re-added while the relay was up
         for j, (s, o) in enumerate(zip(steps, r["obs"])):
             op = s["op"]
             closed_so_far = closed_so_far + (o.get("closedNow") or [])
@@ -229,18 +231,27 @@ def e2e(ctx, variant, found):
                     py_bad.setdefault(idx, set()).add("ConnToUsable")
                     if "view" not in first:
                         first["view"] = (sig, what, j)
-            must_ids = {m["id"]: m for m in (s.get("must") or [])}
-            if must_ids:
-                stats["must_close"] += len(must_ids)
-                still = [c for c in (o.get("mustStillOpen") or [])]
-                stats["closed_ok"] += len(must_ids) - len(still)
+            # closures: the harness' own bookkeeping says which client is connected to which backend
+            if op == "Conn" and o.get("established"):
+                conn_back[s["id"]] = o["backend"]
+                displaced[s["id"]] = False
+            if op == "Add" or op == "ReplaceAll":
+                for cid, a in conn_back.items():
+                    if (op == "Add" and s["a"] == a) or (op == "ReplaceAll" and s["f"][a - 1] != "none"):
+                        displaced[cid] = True   # the address got a new object while the relay was up
+            must = o.get("must") or []
+            if must:
+                stats["must_close"] += len(must)
+                still = o.get("mustStillOpen") or []
+                stats["closed_ok"] += len(must) - len(still)
                 if still:
                     py_bad.setdefault(idx, set()).add("EstablishedClosed")
-                    how = must_ids[still[0]]["how"]
-                    sig = "removed-latch-not-closed/" + ("fresh-object" if how == "stored" else "replaced-object")
+                    sig = "removed-latch-not-closed/" + ("replaced-object" if displaced.get(still[0]) else "fresh-object")
                     if "latch" not in first:
                         first["latch"] = (sig, "connection %s to backend %d still open %d ms after its host was removed" % (
-                            still, must_ids[still[0]]["a"], o.get("deadlineMs", 0)), j, o.get("deadlineMs", 0))
+                            still, conn_back.get(still[0], 0), o.get("deadlineMs", 0)), j, o.get("deadlineMs", 0))
+            for cid in (o.get("closedNow") or []):
+                conn_back.pop(cid, None)
         for grp, f in first.items():
             sig, what, j = f[0], f[1], f[2]
             e = found.setdefault(sig, {"n": 0, "art": None, "len": 10 ** 9, "detail": "", "long": False})
